@@ -127,7 +127,7 @@ fn c12_delay_request_timer() {
 }
 
 // @harness c12_filter_update_timer
-// @props C12 C08:thorough C03 C17:thorough
+// @props C12 C08:thorough C03:thorough C17:thorough
 // @tier quick
 // @variant lists2
 // @timeout 900
